@@ -4,7 +4,8 @@
 //! file in normalised form (output keys and oracle answers recomputed from the code as it is now).
 //!
 //! Case line:
-//!   <label> S <strategy 0..3> E <fee_coefficient> <fee_constant> <coins_per_utxo_byte>
+//!   <label> S <strategy 0..3> E <fee_coefficient> <fee_constant> <coins_per_utxo_byte> [R <n|e> <fee>]
+//!                                       (R: fee request of the builder, n = set_min_fee, e = set_fee)
 //!   O <n> {<id> <addr> <value>}*        offered UTxOs (TransactionUnspentOutputs, in order)
 //!   P <n> {<id> <addr> <value>}*        regular inputs already in the builder
 //!   I <coin>                            implicit input (one withdrawal of that amount; 0 = none)
@@ -20,8 +21,9 @@
 //!   <strategy>: 0 LargestFirst, 1 RandomImprove, 2 LargestFirstMultiAsset, 3 RandomImproveMultiAsset
 //! <id> stands for an outpoint: transaction hash = id (8 bytes big endian) followed by 24 bytes 0x11, index id mod 4.
 //!
-//! Result line: <ok|err:insufficient|err:other|panic> I <n> <ids of the builder's inputs, ascending>
+//! Result line: <ok|err:insufficient|err:other|panic|hang> I <n> <ids of the builder's inputs, ascending>
 //!              X <get_explicit_input as value with only non-zero assets | err> F <min_fee() after success | err | ->
+//!              G <outpoint added last by LargestFirst> <min_fee() of the builder without it> | -
 //! The oracle entries a case needs are discovered by asking the extracted model (`c08_driver serve`) which entry it
 //! misses and answering with the real builder's fee_for_input / min_fee, until the model runs through.
 #![allow(deprecated)]
@@ -37,7 +39,7 @@ struct V { coin: u64, ma: Option<Vec<(Vec<u8>, Vec<u8>, u64)>> }
 struct U { id: u64, addr: String, val: V }
 #[derive(Clone, Debug)]
 struct Case {
-    label: String, strat: u8, fee_a: u64, fee_b: u64, cpb: u64,
+    label: String, strat: u8, fee_a: u64, fee_b: u64, cpb: u64, req: Option<(bool, u64)>,   // fee request: (exact?, fee)
     offered: Vec<U>, pre: Vec<U>, implicit: u64, mint: V, outs: Vec<U>, deposit: u64, burn: V, donation: Option<u64>,
     choices: Vec<u64>,
 }
@@ -67,6 +69,7 @@ fn parse_case(t: &[String]) -> Case {
     let label = p.next().to_string();
     p.expect("S"); let strat = p.u64() as u8;
     p.expect("E"); let fee_a = p.u64(); let fee_b = p.u64(); let cpb = p.u64();
+    let req = if p.t[p.i] == "R" { p.next(); let k = p.next(); let f = p.u64(); Some((k == "e", f)) } else { None };
     p.expect("O"); let offered = p.utxos();
     p.expect("P"); let pre = p.utxos();
     p.expect("I"); let implicit = p.u64();
@@ -76,7 +79,7 @@ fn parse_case(t: &[String]) -> Case {
     p.expect("B"); let burn = p.value();
     p.expect("N"); let d = p.next(); let donation = if d == "~" { None } else { Some(d.parse().unwrap()) };
     p.expect("C"); let n: usize = p.next().parse().unwrap(); let choices = (0..n).map(|_| p.u64()).collect();
-    Case { label, strat, fee_a, fee_b, cpb, offered, pre, implicit, mint, outs, deposit, burn, donation, choices }
+    Case { label, strat, fee_a, fee_b, cpb, req, offered, pre, implicit, mint, outs, deposit, burn, donation, choices }
 }
 fn show_v(v: &V) -> String {
     match &v.ma {
@@ -102,8 +105,9 @@ fn show_case(c: &Case) -> String {
         keyed[i].id = k as u64;
     }
     let ch: Vec<String> = c.choices.iter().map(|x| x.to_string()).collect();
-    format!("{} S {} E {} {} {} O {} P {} I {} M {} T {} D {} B {} N {} C {}{}{}",
-        c.label, c.strat, c.fee_a, c.fee_b, c.cpb, show_us(&c.offered), show_us(&c.pre), c.implicit, show_v(&c.mint),
+    let req = match c.req { None => String::new(), Some((e, f)) => format!(" R {} {}", if e { "e" } else { "n" }, f) };
+    format!("{} S {} E {} {} {}{} O {} P {} I {} M {} T {} D {} B {} N {} C {}{}{}",
+        c.label, c.strat, c.fee_a, c.fee_b, c.cpb, req, show_us(&c.offered), show_us(&c.pre), c.implicit, show_v(&c.mint),
         show_us(&keyed), c.deposit, show_v(&c.burn), c.donation.map(|d| d.to_string()).unwrap_or("~".into()),
         ch.len(), if ch.is_empty() { "" } else { " " }, ch.join(" "))
 }
@@ -187,6 +191,7 @@ fn builder(c: &Case, inputs: &[&U]) -> Result<TransactionBuilder, String> {
         tb.set_mint_builder(&mb);
     }
     if let Some(d) = c.donation { tb.set_donation(&BigNum::from(d)); }
+    match c.req { Some((true, f)) => tb.set_fee(&BigNum::from(f)), Some((false, f)) => tb.set_min_fee(&BigNum::from(f)), None => {} }
     Ok(tb)
 }
 
@@ -224,6 +229,30 @@ fn input_ids(tb: &TransactionBuilder) -> Option<Vec<u64>> {
     Some(v)
 }
 
+/// present inputs win over offered ones with the same outpoint, the first offered occurrence over later ones
+fn utxo_index(c: &Case) -> HashMap<u64, &U> {
+    let mut by_id: HashMap<u64, &U> = HashMap::new();
+    for u in c.offered.iter().rev() { by_id.insert(u.id, u); }
+    for u in c.pre.iter().rev() { by_id.insert(u.id, u); }
+    by_id
+}
+
+/// The outpoint LargestFirst added last, when the clause of the judge applies (CoinSelSpec.lf_prefix_outpoint).
+fn lf_last_added(c: &Case, final_ids: &[u64]) -> Option<u64> {
+    if c.strat != 0 { return None; }
+    let need: u128 = c.outs.iter().map(|o| o.val.coin as u128).sum::<u128>() + c.deposit as u128 + c.donation.unwrap_or(0) as u128;
+    if c.pre.is_empty() && !((c.implicit as u128 + c.mint.coin as u128) < need) { return None; }
+    let mut seen: Vec<u64> = c.pre.iter().map(|u| u.id).collect();
+    let mut best: Option<(u64, u64)> = None;       // (coin, id): smallest coin, first in offered order
+    for u in &c.offered {
+        if seen.contains(&u.id) { continue; }
+        seen.push(u.id);
+        if !final_ids.contains(&u.id) { continue; }
+        if best.map_or(true, |(coin, _)| u.val.coin < coin) { best = Some((u.val.coin, u.id)); }
+    }
+    best.map(|b| b.1)
+}
+
 /// Runs add_inputs_from under the script; returns the result line and the draws (range, value) made.
 fn run_impl(c: &Case) -> (String, Vec<(u64, u64)>) {
     let pre: Vec<&U> = c.pre.iter().collect();
@@ -242,8 +271,20 @@ fn run_impl(c: &Case) -> (String, Vec<(u64, u64)>) {
     let ids = match input_ids(&tb) { Some(v) => v, None => return (format!("{} inputs-unobservable", status), draws) };
     let x = match tb.get_explicit_input() { Ok(v) => show_value(&v), Err(_) => "err".into() };
     let f = if status == "ok" { match tb.min_fee() { Ok(f) => { let f: u64 = f.into(); f.to_string() } Err(_) => "err".into() } } else { "-".into() };
+    // largest-first: min_fee() of the builder without the input that was added last (the smallest added one, the first
+    // in offered order among equal ones), so that "stops as soon as covered" can be judged on this result
+    let g = if status == "ok" { match lf_last_added(c, &ids) {
+        Some(x) => {
+            let by_id = utxo_index(c);
+            let rest: Vec<&U> = ids.iter().filter(|i| **i != x).map(|i| *by_id.get(i).unwrap()).collect();
+            let fee = guarded(|| match builder(c, &rest).and_then(|tb| tb.min_fee().map_err(|e| e.to_string())) {
+                Ok(f) => { let f: u64 = f.into(); f.to_string() } Err(_) => "err".to_string() });
+            format!("{} {}", x, if fee == "panic" { "err".to_string() } else { fee })
+        }
+        None => "-".to_string(),
+    } } else { "-".to_string() };
     let idl: Vec<String> = ids.iter().map(|i| format!(" {}", i)).collect();
-    (format!("{} I {}{} X {} F {}", status, ids.len(), idl.concat(), x, f), draws)
+    (format!("{} I {}{} X {} F {} G {}", status, ids.len(), idl.concat(), x, f, g), draws)
 }
 
 // ------------------------------------------------------------------------------------------------ watchdog
@@ -326,9 +367,7 @@ fn answer(c: &Case, by_id: &HashMap<u64, &U>, need: &[&str], cache: &mut HashMap
 /// The full case line (with oracle section) for which the model runs through.
 fn complete(c: &Case, orc: &mut Oracle, cache: &mut HashMap<String, String>) -> String {
     let base = show_case(c);
-    let mut by_id: HashMap<u64, &U> = HashMap::new();
-    for u in c.offered.iter().rev() { by_id.insert(u.id, u); }
-    for u in c.pre.iter().rev() { by_id.insert(u.id, u); }       // present inputs win (the map holds them first)
+    let by_id = utxo_index(c);
     let mut entries: Vec<String> = vec![];
     for _round in 0..400 {
         let line = if entries.is_empty() { format!("{} Q 0", base) } else { format!("{} Q {} {}", base, entries.len(), entries.join(" ")) };
@@ -450,7 +489,7 @@ fn gen_scenario(r: &mut Rng, max_utxos: u64) -> Case {
         if !pre.is_empty() && r.chance(1, 2) { offered[j].id = pre[0].id; offered[j].addr = pre[0].addr.clone(); offered[j].val = pre[0].val.clone(); }
         else { let k = r.below(offered.len() as u64) as usize; let src = offered[k].clone(); offered[j] = src; }
     }
-    let mut c = Case { label: format!("f{}", family / 10), strat, fee_a, fee_b, cpb, offered, pre, implicit, mint, outs, deposit, burn, donation, choices: vec![] };
+    let mut c = Case { label: format!("f{}", family / 10), strat, fee_a, fee_b, cpb, req: None, offered, pre, implicit, mint, outs, deposit, burn, donation, choices: vec![] };
     // improvement followed by a fee top-up: ADA-only random-improve with a deposit of the order of the outputs
     if family % 15 == 3 && !multi {
         c.label = "sw".to_string();
@@ -474,6 +513,29 @@ fn gen_scenario(r: &mut Rng, max_utxos: u64) -> Case {
             c.implicit += *r.pick(&[0u64, 0, 1, 1000, 5000, 10_000]);
             let last = c.offered.len() - 1;
             c.offered[last].val.coin = *r.pick(&[0u64, 1, 1000, 3000, 6000, 7000, 10_000, 1_000_000]);
+        }
+    }
+    // fee request of the builder: set_min_fee around the minimum fee of the initial builder (the increments of
+    // fee_for_input are differences of estimates raised to it), far below / above it, or a fixed fee
+    if family % 6 == 1 || c.label == "ps" && r.chance(1, 3) {
+        let pre: Vec<&U> = c.pre.iter().collect();
+        let f0: u64 = builder(&c, &pre).ok().and_then(|tb| tb.min_fee().ok()).map(|f| f.into()).unwrap_or(170_000);
+        c.req = Some(match r.below(8) {
+            0 => (false, f0.saturating_sub(r.range(0, 400))),
+            1 => (false, f0 + r.range(0, 400)),
+            2 => (false, f0 + r.range(400, 20_000)),
+            3 => (false, f0 / 2),
+            4 => (false, r.u64_edge() >> 20),
+            5 => (true, f0 + r.range(0, 10_000)),
+            6 => (true, r.range(0, 300_000)),
+            _ => (false, f0.saturating_sub(r.range(0, 9) * 44)),
+        });
+        if c.label == "ps" {
+            // keep the implicit input on the boundary of the pre-step for the fee the request leads to
+            let need: u128 = c.outs.iter().map(|o| o.val.coin as u128).sum::<u128>() + c.deposit as u128 + c.donation.unwrap_or(0) as u128;
+            if need < (1u128 << 62) {
+                if let Ok(tb) = builder(&c, &[]) { if let Ok(f) = tb.min_fee() { let f: u64 = f.into(); c.implicit = need as u64 + f + r.range(0, 2); } }
+            }
         }
     }
     c
